@@ -1,6 +1,7 @@
 #!/usr/bin/env python3
 """behaviour-preserving edit probe: tools/refprobe.py '<file>' '<old>' '<new>' [more triples...]; runs all checks, expects silence"""
-import subprocess, sys
+import os, subprocess, sys
+ENV = dict(os.environ, TF_OUT="/tmp/tfout-scratch")
 a = sys.argv[1:]
 files = set()
 for i in range(0, len(a), 3):
@@ -14,7 +15,7 @@ for i in range(0, len(a), 3):
 try:
     bad = []
     for c in ["C%02d" % i for i in range(1, 21)]:
-        r = subprocess.run(["/verif/check", c], capture_output=True, text=True)
+        r = subprocess.run(["/verif/check", c], capture_output=True, text=True, env=ENV)
         if r.returncode != 0:
             lines = [l for l in r.stdout.splitlines() if l.startswith("  rule=") or l.startswith("  ")][:4]
             bad.append((c, lines))
